@@ -1,7 +1,8 @@
-SPECIFICATION Spec
+SPECIFICATION MCSpec
 CONSTANTS MaxL = 7
           Cfgs <- MCCfgs
           ZeroBudget = 2
           Limit = 4
-INVARIANTS TypeOK Conservation Lossless NoEmpty WithinLimit MinMaxRespected SizeExact NoOverRead
+          MaxHeld = 2
+INVARIANTS TypeOK Conservation Lossless NoEmpty WithinLimit MinMaxRespected SizeExact NoOverRead HeldLossless HeldBounded
 CHECK_DEADLOCK FALSE
